@@ -44,6 +44,13 @@ GROUPS = [
              ("convert_index_aux", 0, "rs_convert_index_aux"),
              ("convert_index", 0, "rs_convert_index"),
              ("convert_slice_indices", 0, "rs_convert_slice_indices")]},
+    {"name": "RsRange", "file": "starlark/src/values/types/range/range_type.rs", "imports": [],
+     "cfg": {"self_type": "Range", "self_name": "Range",
+             "typed_receivers": {"Range": {"length": "rs_range_length", "to_bool": "rs_range_to_bool"}}},
+     "fns": [("to_bool", 0, "rs_range_to_bool"),
+             ("length", 0, "rs_range_length"),
+             ("equals_range", 0, "rs_range_equals_range"),
+             ("is_in", 0, "rs_range_is_in")]},
     {"name": "RsConv", "file": "starlark_syntax/src/convert_indices.rs", "imports": [],
      "cfg": {},
      "fns": [("bound", 0, "rs_bound"),
